@@ -112,3 +112,21 @@ Theorem C01_loops_example :
   (exists s', lgo_call 200 example_loop [LitV (LitInt 100)] = LRet (LitV (LitInt 99)) s').
 Proof. exact example_loop_accepted_and_returns. Qed.
 Print Assumptions C01_loops_example.
+
+(* ... and nested blocks: the same without the restriction.  A nested block (or
+   loop variable) that is followed by more statements is printed without
+   delimiters unless it hides a visible variable; the theorem covers the scope
+   of its bindings exactly as Coq reads the text. *)
+From GV Require Import Tr.MiniGoLBlocks.
+
+Theorem C01_loops_and_blocks_meaning_preserved : forall n tf fn e args v s',
+  trl tf (params_env (lf_params fn)) UReturned (lf_body fn) None = Some e ->
+  length args = length (lf_params fn) ->
+  lgo_call n fn args = LRet v s' ->
+  exists m, eval m (close (cs_of (rev (combine (map fst (lf_params fn)) (map Imm args)))) e) state0 = RVal v s'.
+Proof. exact lbodyk_correct. Qed.
+Print Assumptions C01_loops_and_blocks_meaning_preserved.
+
+Theorem C01_loops_and_blocks_statement_lists : forall n, Q_lgo n /\ Q_lloop n.
+Proof. exact trlk_correct. Qed.
+Print Assumptions C01_loops_and_blocks_statement_lists.
